@@ -35,7 +35,7 @@ SHARDS = {"quick": 4, "thorough": 16}
 RULE = (
     "Law N: all 34x34 ordered category pairs (exhaustive) x 3 fixed spec pairs, three-level nestings on random category triples, plus Hypothesis spec pairs (0..3 tokens each, multi-axis "
     "tokens on either/both sides) on random category pairs; law U/T: categories x array-type expressions (Union, X|Y, TypeVar plain/"
-    "bound/constrained) x Hypothesis specs; law S: 11 abstract categories (+ precision classes for totality) x {bool,int,float,complex} "
+    "bound/constrained) x Hypothesis specs; law S: every category (abstract: the documented families; precision: the family of its dtype names) x {bool,int,float,complex} "
     "x specs admitting / not admitting rank 0, alone and inside unions; law A: the three aliases. Non-trivial = pair with a proper "
     "(non-empty, non-identity) intersection or a variadic on either side; union/TypeVar with >=2 members; scalar case with a dropped "
     "member; distinct by (law, categories, specs, array type)."
@@ -354,17 +354,26 @@ def law_non_arrays(ctx):
 SCALARS = {"bool": bool, "int": int, "float": float, "complex": complex}
 
 
+def contains_scalar(cat, sk):
+    """does the category contain the Python scalar type?  Abstract categories: the documented families; a precision category
+    (Float32, Int4, Complex64, Float8e5m2, ...) contains the scalar type of its own family -- one of its dtype names starts with the
+    scalar type's name (so UInt8 does not contain int, Float32 contains float)."""
+    if cat in dt.ABSTRACT:
+        return cat in dt.SCALAR_KIND[sk]
+    return any(name.startswith(sk) for name in dt.TABLE[cat])
+
+
 def law_scalar(ctx, cat, sk, spec, rank0, in_union):
     D = getattr(jaxtyping, cat)
     py = SCALARS[sk]
-    abstract = cat in dt.ABSTRACT
-    survives = rank0 and (cat in dt.SCALAR_KIND[sk])
+    abstract = True  # (precision categories follow the same law, by the family of their dtype names)
+    survives = rank0 and contains_scalar(cat, sk)
     case = {"law": "S", "cat": cat, "scalar": sk, "spec": spec, "in_union": in_union}
     if in_union:
         kind, ann = build(lambda: D[Union[py, np.ndarray], spec])
     else:
         kind, ann = build(lambda: D[py, spec])
-    ctx.note(case, abstract and in_union and not survives, classes=["law-S", f"survives-{survives}" if abstract else "precision-totality", f"built-{kind}"],
+    ctx.note(case, abstract and in_union and not survives, classes=["law-S", f"survives-{survives}", f"built-{kind}"] + ([] if cat in dt.ABSTRACT else ["precision-category"]),
              sample={"law": "scalar", "annotation": f"{cat}[{'Union[' + sk + ', ndarray]' if in_union else sk}, {spec!r}]", "result": kind})
     if kind == "other":
         raise Violation("S-totality", case, f"raised {ann}")
@@ -374,7 +383,7 @@ def law_scalar(ctx, cat, sk, spec, rank0, in_union):
         if survives and not (kind == "ok" and ann is py):
             raise Violation("S-law", case, f"{cat}[{sk}, {spec!r}] should be {sk} itself, got {kind} {ann!r}")
         if not survives and kind != "ValueError":
-            raise Violation("S-law", case, f"{cat}[{sk}, {spec!r}] should raise ValueError (rank-0 admissible: {rank0}, category contains {sk}: {cat in dt.SCALAR_KIND[sk]}), got {ann!r}")
+            raise Violation("S-law", case, f"{cat}[{sk}, {spec!r}] should raise ValueError (rank-0 admissible: {rank0}, category contains {sk}: {contains_scalar(cat, sk)}), got {ann!r}")
         return
     if kind != "ok":
         raise Violation("S-law", case, f"{cat}[Union[{sk}, ndarray], {spec!r}] raised ValueError: {ann}")
